@@ -111,9 +111,9 @@ def run(tier, seed):
                   'reversed-markets-first, markets-last and every adjacent transposition (quick); + all permutations for <=7 sectors / rotations '
                   'and strided interleavings beyond (thorough)', 'numeric domain': 'all reals (every variable free)'}
     chk.assumptions = ['a permutation is admissible iff every object exists before it is passed to a constructor (Treasury before CentralBank, '
-                       'markets before a multi-output firm); countries keep their relative order',
+                       'markets before a multi-output firm); countries (each with its stated currency) and the external sector are permuted among themselves, except in topologies where a Region relies on the documented default currency (= the currency of the country declared last)',
                        'post-declaration calls (AddSupplier, GenerateAssetWeighting, SetExogenous, RegisterCashFlow) stay in canonical order']
-    chk.outside = ['orders of post-declaration method calls', 'orders of country creation']
+    chk.outside = ['orders of post-declaration method calls', 'country orders in topologies with a default-currency Region (order dependent by documented design)']
     res = pmap(work, plans)
     n_orders = 0
     for st, rec in res:
